@@ -477,7 +477,7 @@ fn c10_q_exchange_matching_and_gate() {
 #[cfg_attr(kani, kani::unwind(8))]
 #[cfg_attr(kani, kani::stub(embassy_time::Instant::now, crate::verif_support::stub_instant_now))]
 #[cfg_attr(not(kani), test)]
-fn c10_t_exchange_matching_and_gate_5_slots() {
+fn c10_x_exchange_matching_and_gate_5_slots() {
     exchange_matching_and_gate::<5>();
 }
 
@@ -776,7 +776,7 @@ fn c20_q_eviction_choice() {
 #[cfg_attr(kani, kani::unwind(18))]
 #[cfg_attr(kani, kani::stub(embassy_time::Instant::now, crate::verif_support::stub_instant_now))]
 #[cfg_attr(not(kani), test)]
-fn c20_t_add_fails_iff_table_full() {
+fn c20_x_add_fails_iff_table_full() {
     let mut ss = Sessions::new();
     let n = any_usize();
     assume(n <= MAX_SESSIONS);
